@@ -1,0 +1,75 @@
+//go:build verif
+
+// Contracts for package interpreter, checked by /verif/gocv (comment-only file; no code).
+
+package interpreter
+
+// ---- C16: interactive definitions and pop compose like a stack ---------------------------------------------
+
+// Every loaded path has a live fragment with its program and checkpoints.
+//@ spec func srcOK(i *Interpreter) bool = i.sourceFragments != nil && i.knownPredicates != nil &&
+//@      (forall k int :: 0 <= k && k < len(i.src) ==> i.src[k] in i.sourceFragments && i.sourceFragments[i.src[k]] != nil && i.sourceFragments[i.src[k]].program != nil
+//@          && (forall p ast.PredicateSym :: p in i.sourceFragments[i.src[k]].program.Decls ==> i.sourceFragments[i.src[k]].program.Decls[p] != nil))
+//@ spec func topIsInteractive(i *Interpreter) bool = len(i.src) > 0 && i.src[len(i.src)-1] == interactivePath
+
+// Parsing, analysis and evaluation are opaque here; they cannot reach the interpreter's unexported fields.
+//@ func (i *Interpreter) evalProgram(programInfo)
+//@   trusted
+//@   modifies everything except Interpreter.buffer, Interpreter.src, Interpreter.sourceFragments, Interpreter.simpleStore, Interpreter.temporalStore, Interpreter.store, Interpreter.knownPredicates
+//@ func (i *Interpreter) updateCombinedStore()
+//@   trusted
+//@   requires i != nil
+//@   modifies i.store
+
+//@ func (i *Interpreter) hasInteractiveDefs()
+//@   requires i != nil
+//@   modifies nothing
+//@   ensures result == topIsInteractive(i)
+
+// A pop removes the most recent live fragment: the path list loses its last entry and both stores return to the
+// checkpoints taken when that fragment was pushed. The interactive text buffer is not touched.
+//@ func (i *Interpreter) popSourceFragment()
+//@   requires i != nil && srcOK(i)
+//@   modifies i.src, i.sourceFragments, i.knownPredicates, i.simpleStore, i.temporalStore, i.store
+//@   ensures old(len(i.src)) == 0 ==> result == nil && len(i.src) == 0
+//@   ensures old(len(i.src)) > 0 ==> len(i.src) == old(len(i.src)) - 1 && (forall k int :: 0 <= k && k < len(i.src) ==> i.src[k] == old(i.src[k]))
+//@   ensures old(len(i.src)) > 0 ==> result == old(i.sourceFragments[i.src[len(i.src)-1]]) && i.simpleStore == old(i.sourceFragments[i.src[len(i.src)-1]].simpleCheckpoint) && i.temporalStore == old(i.sourceFragments[i.src[len(i.src)-1]].temporalCheckpoint)
+//@   loop 1 invariant len(i.src) == old(len(i.src)) - 1 && (forall k int :: 0 <= k && k < len(i.src) ==> i.src[k] == old(i.src[k])) && i.simpleStore == old(i.simpleStore) && i.temporalStore == old(i.temporalStore) && f == old(i.sourceFragments[i.src[len(i.src)-1]]) && f != nil
+
+//@ func (i *Interpreter) resetInteractiveDefs(buffer)
+//@   requires i != nil && srcOK(i)
+//@   modifies i.buffer, i.src, i.sourceFragments, i.knownPredicates, i.simpleStore, i.temporalStore, i.store
+//@   ensures i.buffer == buffer
+//@   ensures !old(topIsInteractive(i)) ==> len(i.src) == old(len(i.src))
+//@   ensures old(topIsInteractive(i)) ==> len(i.src) == old(len(i.src)) - 1
+
+// Opaque front-end calls (trusted frames): parsing touches nothing of ours; analysis may edit the map it is given.
+//@ func (i *Interpreter) pushLoadedFragment(pathset, units)
+//@   trusted
+//@   requires i != nil
+//@   modifies everything except Interpreter.buffer
+
+// Loading a file discards the interactive definitions: afterwards the interactive text buffer is empty, on every path.
+//@ func (i *Interpreter) Load(pathset)
+//@   requires i != nil && srcOK(i)
+//@   opt nosafety
+//@   ensures i.buffer == ""
+
+// ::pop on interactive definitions empties the text buffer together with the fragment.
+//@ func (i *Interpreter) Pop()
+//@   requires i != nil && srcOK(i)
+//@   opt nosafety
+//@   ensures old(topIsInteractive(i)) ==> i.buffer == "" && len(i.src) == old(len(i.src)) - 1
+//@   ensures !old(topIsInteractive(i)) && old(len(i.src)) > 0 ==> i.buffer == old(i.buffer) && len(i.src) == old(len(i.src)) - 1
+//@   ensures old(len(i.src)) == 0 ==> len(i.src) == 0 && i.buffer == old(i.buffer)
+
+//@ func (i *Interpreter) pushSourceFragment(pathset, units, programInfo)
+//@   trusted
+//@   requires i != nil
+//@   modifies everything except Interpreter.buffer
+
+// A definition that is rejected leaves the visible state unchanged: the list of live fragments is what it was.
+//@ func (i *Interpreter) Define(clauseText)
+//@   requires i != nil && srcOK(i)
+//@   opt nosafety
+//@   ensures err != nil ==> len(i.src) == old(len(i.src))
